@@ -252,11 +252,26 @@ def direct_clauses(max_n):
 
 
 def run_direct(task):
+    """clauses without symbolic input, evaluated directly (labelled so in the evidence).  A failing clause is a
+    violation like any other: it is written as a replay file whose replay re-evaluates the clause."""
     probs = direct_clauses(task.get("max_n", 5))
-    return {"task": task, "paths": 1, "decisions": 0, "queries": 0, "solver_s": 0.0, "unknown": 0, "violations": [],
-            "violation_count": 0, "inconclusive": [], "harness_errors": ["direct clause failed: " + p for p in probs][:3],
+    viol = [{"label": "c19:direct:" + p.split(":")[0][:60], "detail": p, "model": {}, "script": [], "path": 0,
+             "harness": "c19.direct_replay", "params": {"max_n": task.get("max_n", 5)}} for p in probs]
+    return {"task": task, "paths": 1, "decisions": 0, "queries": 0, "solver_s": 0.0, "unknown": 0, "violations": viol[:3],
+            "violation_count": len(viol), "inconclusive": [], "harness_errors": [],
             "xval": 0, "xval_mismatch": [], "asserted": 1, "exhausted": True, "samples": [], "functions": {}, "patched": [],
             "extra": {"direct_clauses_evaluated": 1}}
+
+
+@harness("c19.direct_replay")
+def direct_replay(ctx):
+    if ctx.sym:
+        ctx.require(True, "noop")
+        return {}
+    probs = direct_clauses(ctx.params.get("max_n", 5))
+    if probs:
+        raise core.ConcViolation("c19:direct", "; ".join(probs)[:400])
+    return {"kind": "ok"}
 
 
 def tasks(tier, seed):
